@@ -153,7 +153,7 @@ Proof.
   - simpl in Hi. inversion Hi; subst b0.
     assert (Hid : nth_error (map fst b) j = Some (fst p)) by (apply map_nth_error; exact Hj).
     rewrite (pos_of_some _ _ _ (nodup_app_l' _ _ ND) Hid).
-    specialize (F 0 b eq_refl). rewrite Nat.add_0_r in F. Show. rewrite F. apply map_nth_error. exact Hj.
+    specialize (F 0 b eq_refl). rewrite Nat.add_0_r in F. transitivity (nth_error (map snd b) j); [f_equal; exact F|apply map_nth_error; exact Hj].
   - simpl in Hi.
     assert (NI : ~ In (fst p) (map fst b0)).
     { intro I. eapply nodup_app_disj; [exact ND|exact I|].
@@ -180,10 +180,10 @@ Proof.
   assert (Q0 : quiet sinit) by (split; [reflexivity|constructor]).
   destruct (expand_run sched 0 bs sinit Q0 N) as (Q1 & F1 & G1).
   set (st1 := srun_from true sinit (expand 0 bs sched)) in *.
-  cbn [sinit s_file app length] in F1. unfold ghost at 2 in G1. cbn [sinit s_index s_queue map app] in G1.
+  cbn [sinit s_file app length] in F1. unfold ghost at 2 in G1. cbn [sinit s_index s_queue map app] in G1. change (length (s_file sinit)) with 0 in G1.
   assert (L : length (s_queue st1) <= length bs).
   { assert (E : length (ghost st1) = length bs).
-    { rewrite G1. clear. generalize 0. induction bs; intros; simpl; auto. }
+    { rewrite G1. clear. generalize 0. induction bs as [|b bs' IHb]; intros n; simpl; [reflexivity|rewrite IHb; reflexivity]. }
     unfold ghost in E. rewrite app_length, !map_length in E. lia. }
   destruct (drain (length bs) st1 Q1 L) as (D1 & D2 & D3).
   set (st2 := srun_from true st1 (repeat SWork (length bs))) in *.
